@@ -146,28 +146,176 @@ pub fn to_crate_spelled(g: &[GNode], sp: NameSpell) -> Vec<SchemaNode> {
 				let dotted = !s.contains('.') && (sp == NameSpell::Dotted || (sp == NameSpell::OddDotted && i % 2 == 1));
 				cs::Name::from_fully_qualified_name(if dotted { format!(".{s}") } else { s.to_owned() })
 			};
-			let t: RegularType = match &n.kind {
-				GKind::Null => RegularType::Null,
-				GKind::Boolean => RegularType::Boolean,
-				GKind::Int => RegularType::Int,
-				GKind::Long => RegularType::Long,
-				GKind::Float => RegularType::Float,
-				GKind::Double => RegularType::Double,
-				GKind::Str => RegularType::String,
-				GKind::Bytes => RegularType::Bytes,
-				GKind::Array(k) => RegularType::Array(cs::Array::new(key(*k))),
-				GKind::Map(k) => RegularType::Map(cs::Map::new(key(*k))),
-				GKind::Union(v) => RegularType::Union(cs::Union::new(v.iter().map(|k| key(*k)).collect())),
-				GKind::Record(nm, f) => RegularType::Record(cs::Record::new(name(nm), f.iter().map(|(fname, k)| cs::RecordField::new(fname.clone(), key(*k))).collect())),
-				GKind::Enum(nm, s) => RegularType::Enum(cs::Enum::new(name(nm), s.clone())),
-				GKind::Fixed(nm, size) => RegularType::Fixed(cs::Fixed::new(name(nm), *size)),
+			// odd-numbered nodes are built through the public convenience conversions
+			// (`From<Array|Map|Union|Record|Enum|Fixed> for RegularType / SchemaNode`,
+			// `From<RegularType> for SchemaNode`), even-numbered ones through the variant
+			// constructors and `SchemaNode::new`
+			let conv = i % 2 == 1;
+			let via = |direct: RegularType, node: SchemaNode| -> (RegularType, Option<SchemaNode>) { (direct, if conv { Some(node) } else { None }) };
+			let (t, converted): (RegularType, Option<SchemaNode>) = match &n.kind {
+				GKind::Null => via(RegularType::Null, SchemaNode::from(RegularType::Null)),
+				GKind::Boolean => via(RegularType::Boolean, SchemaNode::from(RegularType::Boolean)),
+				GKind::Int => via(RegularType::Int, SchemaNode::from(RegularType::Int)),
+				GKind::Long => via(RegularType::Long, SchemaNode::from(RegularType::Long)),
+				GKind::Float => via(RegularType::Float, SchemaNode::from(RegularType::Float)),
+				GKind::Double => via(RegularType::Double, SchemaNode::from(RegularType::Double)),
+				GKind::Str => via(RegularType::String, SchemaNode::from(RegularType::String)),
+				GKind::Bytes => via(RegularType::Bytes, SchemaNode::from(RegularType::Bytes)),
+				GKind::Array(k) => {
+					let mk = || cs::Array::new(key(*k));
+					if conv {
+						(RegularType::from(mk()), Some(SchemaNode::from(mk())))
+					} else {
+						(RegularType::Array(mk()), None)
+					}
+				}
+				GKind::Map(k) => {
+					let mk = || cs::Map::new(key(*k));
+					if conv {
+						(RegularType::from(mk()), Some(SchemaNode::from(mk())))
+					} else {
+						(RegularType::Map(mk()), None)
+					}
+				}
+				GKind::Union(v) => {
+					let mk = || cs::Union::new(v.iter().map(|k| key(*k)).collect());
+					if conv {
+						(RegularType::from(mk()), Some(SchemaNode::from(mk())))
+					} else {
+						(RegularType::Union(mk()), None)
+					}
+				}
+				GKind::Record(nm, f) => {
+					let mk = || cs::Record::new(name(nm), f.iter().map(|(fname, k)| cs::RecordField::new(fname.clone(), key(*k))).collect());
+					if conv {
+						(RegularType::from(mk()), Some(SchemaNode::from(mk())))
+					} else {
+						(RegularType::Record(mk()), None)
+					}
+				}
+				GKind::Enum(nm, sy) => {
+					let mk = || cs::Enum::new(name(nm), sy.clone());
+					if conv {
+						(RegularType::from(mk()), Some(SchemaNode::from(mk())))
+					} else {
+						(RegularType::Enum(mk()), None)
+					}
+				}
+				GKind::Fixed(nm, size) => {
+					let mk = || cs::Fixed::new(name(nm), *size);
+					if conv {
+						(RegularType::from(mk()), Some(SchemaNode::from(mk())))
+					} else {
+						(RegularType::Fixed(mk()), None)
+					}
+				}
 			};
-			match &n.logical {
-				None => SchemaNode::new(t),
-				Some(l) => SchemaNode::with_logical_type(t, to_crate_logical(l)),
+			match (&n.logical, converted) {
+				(None, Some(node)) => node,
+				(None, None) => SchemaNode::new(t),
+				(Some(l), _) => SchemaNode::with_logical_type(t, to_crate_logical(l)),
 			}
 		})
 		.collect()
+}
+
+/// The public read accessors agree with direct access to `nodes()`: `root()`, `get(key)`,
+/// `schema[key]`, `SchemaKey::root()`, and `LogicalType::as_str()` with the model's name.
+pub fn accessors_agree(sm: &cs::SchemaMut, g: &[GNode]) -> Result<(), String> {
+	let nodes = sm.nodes();
+	if nodes.len() != g.len() {
+		return Err(format!("nodes().len() = {}, built from {} nodes", nodes.len(), g.len()));
+	}
+	if SchemaKey::root().idx() != 0 || SchemaKey::root() != SchemaKey::from_idx(0) {
+		return Err("SchemaKey::root() is not key 0".into());
+	}
+	if !std::ptr::eq(sm.root(), &nodes[0]) {
+		return Err("root() is not nodes()[0]".into());
+	}
+	for i in 0..nodes.len() {
+		let k = SchemaKey::from_idx(i);
+		if k.idx() != i {
+			return Err(format!("SchemaKey::from_idx({i}).idx() = {}", k.idx()));
+		}
+		match sm.get(k) {
+			Some(n) if std::ptr::eq(n, &nodes[i]) => {}
+			_ => return Err(format!("get({i}) is not nodes()[{i}]")),
+		}
+		if !std::ptr::eq(&sm[k], &nodes[i]) {
+			return Err(format!("schema[{i}] is not nodes()[{i}]"));
+		}
+		match (&nodes[i].logical_type, &g[i].logical) {
+			(None, None) => {}
+			(Some(l), Some(m)) if l.as_str() == m.name() => {}
+			(l, m) => return Err(format!("node {i}: LogicalType::as_str() = {:?}, built with {:?}", l.as_ref().map(|l| l.as_str()), m.as_ref().map(|m| m.name()))),
+		}
+	}
+	if sm.get(SchemaKey::from_idx(nodes.len())).is_some() {
+		return Err("get(len) is Some".into());
+	}
+	Ok(())
+}
+
+/// Sweep: one graph shape (record with a leaf field, an array, a map and a union field, plus
+/// the bare root) x each primitive kind at each leaf position — bare, with every known logical
+/// type the specification allows on it, and with an unknown logical type.
+pub fn primitive_sweep() -> Vec<(String, Vec<GNode>)> {
+	let prims: Vec<(&str, GKind)> = vec![("null", GKind::Null), ("boolean", GKind::Boolean), ("int", GKind::Int), ("long", GKind::Long), ("float", GKind::Float), ("double", GKind::Double), ("bytes", GKind::Bytes), ("string", GKind::Str)];
+	let mut variants: Vec<(String, GNode)> = Vec::new();
+	for (label, k) in &prims {
+		variants.push((label.to_string(), GNode::plain(k.clone())));
+		variants.push((format!("{label}+x-custom"), GNode { kind: k.clone(), logical: Some(Logical::Unknown("x-custom".into())) }));
+	}
+	for (label, k, l) in [
+		("bytes+decimal", GKind::Bytes, Logical::Decimal { precision: 5, scale: 2 }),
+		("bytes+big-decimal", GKind::Bytes, Logical::BigDecimal),
+		("string+uuid", GKind::Str, Logical::Uuid),
+		("int+date", GKind::Int, Logical::Date),
+		("int+time-millis", GKind::Int, Logical::TimeMillis),
+		("long+time-micros", GKind::Long, Logical::TimeMicros),
+		("long+timestamp-millis", GKind::Long, Logical::TimestampMillis),
+		("long+timestamp-micros", GKind::Long, Logical::TimestampMicros),
+	] {
+		variants.push((label.to_string(), GNode { kind: k, logical: Some(l) }));
+	}
+	let p = GNode::plain;
+	let mut out = Vec::new();
+	for (label, v) in &variants {
+		out.push((format!("root {label}"), vec![v.clone()]));
+		// leaf positions: 1 record field, 5 array items, 6 map values, 7 union member
+		let shape = |at: &[usize]| -> Vec<GNode> {
+			let leaf = |i: usize| if at.contains(&i) { v.clone() } else { p(GKind::Int) };
+			vec![
+				p(GKind::Record("a.R".into(), vec![("p".into(), 1), ("a".into(), 2), ("m".into(), 3), ("u".into(), 4)])),
+				leaf(1),
+				p(GKind::Array(5)),
+				p(GKind::Map(6)),
+				p(GKind::Union(vec![7, 8])),
+				leaf(5),
+				leaf(6),
+				leaf(7),
+				p(GKind::Enum("N8".into(), vec!["A".into()])),
+			]
+		};
+		for (pos, name) in [(1usize, "record field"), (5, "array items"), (6, "map values"), (7, "union member")] {
+			out.push((format!("{label} as {name}"), shape(&[pos])));
+		}
+		out.push((format!("{label} at every leaf"), shape(&[1, 5, 6, 7])));
+	}
+	out
+}
+
+/// Graphs with a logical type on a union node (not expressible in JSON: a union is an array).
+pub fn union_with_logical() -> Vec<Vec<GNode>> {
+	let p = GNode::plain;
+	let mut out = Vec::new();
+	for l in [Logical::Unknown("x-custom".into()), Logical::Date, Logical::Decimal { precision: 4, scale: 1 }] {
+		let u = |a: usize, b: usize| GNode { kind: GKind::Union(vec![a, b]), logical: Some(l.clone()) };
+		out.push(vec![u(1, 2), p(GKind::Null), p(GKind::Int)]);
+		out.push(vec![p(GKind::Record("a.R".into(), vec![("f".into(), 1)])), u(2, 3), p(GKind::Str), p(GKind::Enum("E".into(), vec!["A".into()]))]);
+		out.push(vec![p(GKind::Array(1)), u(2, 3), p(GKind::Null), p(GKind::Record("R".into(), vec![("next".into(), 0)]))]);
+	}
+	out
 }
 
 /// Description of a crate node vector (for edited parsed schemas).
